@@ -343,6 +343,8 @@ def stress(run, tsc):
                 'numpy-int-grid': lambda: tsc.tsc_parallel(pos.copy(), np.int64(n1d), box, weights=w, nthread=nthread, wrap=False),
                 'tuple-grid': lambda: tsc.tsc_parallel(pos.copy(), (n1d, n1d, n1d), box, weights=w, nthread=nthread, wrap=False),
                 'wrap-outside-box': lambda: tsc.tsc_parallel(shifted.copy(), (n1d, n1d, n1d), box, weights=w, nthread=nthread, wrap=True),
+                'wrap-outside-box-column-major': lambda: tsc.tsc_parallel(np.asfortranarray(shifted), (n1d, n1d, n1d), box, weights=w, nthread=nthread, wrap=True),
+                'wrap-outside-box-strided-view': lambda: tsc.tsc_parallel(np.repeat(shifted, 2, axis=1)[:, ::2], (n1d, n1d, n1d), box, weights=w, nthread=nthread, wrap=True),
                 'verbose': lambda: tsc.tsc_parallel(pos.copy(), np.zeros((n1d, n1d, n1d), dtype=np.float32), box, weights=w, nthread=nthread, wrap=True, verbose=True),
                 'accumulate': lambda: tsc.tsc_parallel(pos.copy(), np.full((n1d, n1d, n1d), 2.0, dtype=np.float32), box, weights=w, nthread=nthread, wrap=False) - np.float32(2.0),
             }
